@@ -336,3 +336,133 @@ Section DistributedAgg.
     apply Permutation_sym. exact Pd.
   Qed.
 End DistributedAgg.
+
+(* ---- count: pushed down as count, merged with sum ------------------------------------------- *)
+
+Section CountPushdown.
+  Variable conv : nat -> Z.                     (* the count as a sample value *)
+  Hypothesis conv_add : forall a b, conv (a + b) = conv a + conv b.
+  Variable without : bool.
+  Variable grouping : list N.
+
+  Notation key := (fun mv : labels * Z => group_labels without grouping (fst mv)).
+  Notation haskey k := (fun mv : labels * Z => if labels_dec (group_labels without grouping (fst mv)) k then true else false).
+  Notation vals k X := (map snd (filter (haskey k) X)).
+  Notation rsum := (ref_agg (fun v => v) Z.add without grouping).
+  Notation afold := (agg_fold (fun v => v) Z.add).
+
+  Let zassoc : forall a b c, a + b + c = a + (b + c) := fun a b c => eq_sym (Z.add_assoc a b c).
+
+  Definition rcount (X : list (labels * Z)) : list (labels * Z) :=
+    map (fun k => (k, conv (count_occ labels_dec (map key X) k))) (nodup labels_dec (map key X)).
+
+  Lemma conv_0 : conv 0 = 0.
+  Proof. pose proof (conv_add 0 0) as H. simpl in H. lia. Qed.
+
+  Lemma rcount_in X k v : In (k, v) (rcount X) <-> In k (map key X) /\ v = conv (count_occ labels_dec (map key X) k).
+  Proof.
+    unfold rcount. rewrite in_map_iff. split.
+    - intros [k' [E Hk']]. inversion E; subst. split; [apply nodup_In in Hk'; assumption|reflexivity].
+    - intros [Hk ->]. exists k. split; [reflexivity|apply nodup_In; assumption].
+  Qed.
+
+  (* the partial counts with key k in one partition's result: its count for k, if the key occurs *)
+  Lemma vals_rcount X k :
+    vals k (rcount X) = if in_dec labels_dec k (map key X) then [conv (count_occ labels_dec (map key X) k)] else [].
+  Proof.
+    unfold rcount.
+    assert (G : forall ks, NoDup ks -> (forall k', In k' ks -> group_labels without grouping k' = k') ->
+              vals k (map (fun k' => (k', conv (count_occ labels_dec (map key X) k'))) ks) =
+              if in_dec labels_dec k ks then [conv (count_occ labels_dec (map key X) k)] else []).
+    { induction ks as [|k' ks IH]; intros Hnd Hid; simpl; [reflexivity|].
+      inversion Hnd as [|? ? Hn Hnd']; subst.
+      rewrite (Hid k' (or_introl eq_refl)).
+      destruct (labels_dec k' k) as [->|NE]; simpl.
+      - rewrite (IH Hnd') by (intros x Hx; apply Hid; right; assumption).
+        destruct (in_dec labels_dec k ks); [contradiction|reflexivity].
+      - rewrite (IH Hnd') by (intros x Hx; apply Hid; right; assumption).
+        destruct (in_dec labels_dec k ks); reflexivity. }
+    rewrite (G (nodup labels_dec (map key X)) (NoDup_nodup _ _)).
+    - destruct (in_dec labels_dec k (nodup labels_dec (map key X))) as [Hi|Hn], (in_dec labels_dec k (map key X)) as [Hi'|Hn']; try reflexivity.
+      + exfalso. apply Hn'. apply nodup_In in Hi. assumption.
+      + exfalso. apply Hn. apply nodup_In. assumption.
+    - intros k' Hk'. apply nodup_In in Hk'. apply in_map_iff in Hk'. destruct Hk' as [mv [<- _]].
+      apply (group_labels_idem without grouping).
+  Qed.
+
+  Theorem count_distributes A B : Permutation (rcount (A ++ B)) (rsum (rcount A ++ rcount B)).
+  Proof.
+    apply NoDup_Permutation.
+    - unfold rcount. apply (NoDup_map_inv fst). rewrite map_map. simpl. rewrite map_id. apply NoDup_nodup.
+    - apply (NoDup_map_inv fst). apply ref_agg_keys_nodup.
+    - intros [k v]. rewrite rcount_in, (ragg_in' Z.add without grouping).
+      rewrite (vals_app without grouping), !vals_rcount.
+      rewrite !map_app, count_occ_app, conv_add, in_app_iff.
+      destruct (in_dec labels_dec k (map key A)) as [HA|HA], (in_dec labels_dec k (map key B)) as [HB|HB]; simpl.
+      + rewrite (afold_cons Z.add). simpl. split; [intros [_ ->]; reflexivity|intros E; inversion E; split; [left; assumption|reflexivity]].
+      + rewrite (afold_cons Z.add). simpl. rewrite (proj1 (count_occ_not_In labels_dec (map key B) k) HB), conv_0.
+        split; [intros [_ ->]; f_equal; lia|intros E; inversion E; split; [left; assumption|lia]].
+      + rewrite (afold_cons Z.add). simpl. rewrite (proj1 (count_occ_not_In labels_dec (map key A) k) HA), conv_0.
+        split; [intros [_ ->]; f_equal; lia|intros E; inversion E; split; [right; assumption|lia]].
+      + split; [intros [[H|H] _]; contradiction|discriminate].
+  Qed.
+End CountPushdown.
+
+Section DistributedCount.
+  Variable cf : cfg.
+  Variable w : window.
+  Hypothesis HN : (0 < c_shards cf)%nat.
+  Hypothesis HB : (0 < c_batch cf)%nat.
+  Hypothesis Hlb : 0 <= c_lookback cf.
+  Hypothesis Hw : wf_window w.
+  Hypothesis Hstart : noT < w_start w.
+
+  Variable conv : nat -> Z.
+  Hypothesis conv_add : forall a b, conv (a + b) = conv a + conv b.
+  Variable without : bool.
+  Variable grouping : list N.
+
+  Variable s : pshape.
+  Variables ls1 ls2 : list labels.
+  Variables s1 s2 : list (list sample).
+  Hypothesis Hs : sok s.
+  Hypothesis Hl1 : length ls1 = length s1.
+  Hypothesis Hl2 : length ls2 = length s2.
+  Hypothesis Hso1 : Forall sorted_ts s1.
+  Hypothesis Hso2 : Forall sorted_ts s2.
+
+  Let cnt (t : jtree) : jtree := JCount conv without grouping t.
+  Let central := cnt (inst s (ls1 ++ ls2) (s1 ++ s2)).
+  Let distributed := JAgg (fun v => v) Z.add without grouping (JConcat (JRemote (cnt (inst s ls1 s1))) (JRemote (cnt (inst s ls2 s2)))).
+
+  (* count [by|without] (e) over the union, and the sum of the partitions' counts *)
+  Theorem distributed_count_equals_central ts : In ts (grid w) ->
+    exists outs_c outs_d,
+      jrun cf w central = inl outs_c /\
+      jrun cf w distributed = inl outs_d /\
+      Permutation (labelled Z (jseries central) (step_of outs_c ts))
+                  (labelled Z (jseries distributed) (step_of outs_d ts)).
+  Proof.
+    intros Hts.
+    assert (Hok1 : jok (inst s ls1 s1)) by (apply jok_inst; assumption).
+    assert (Hok2 : jok (inst s ls2 s2)) by (apply jok_inst; assumption).
+    assert (Hokc : jok central).
+    { unfold central, cnt, jok. simpl. apply jok_inst; [assumption|rewrite !app_length; lia|apply Forall_app; split; assumption]. }
+    assert (Hokd : jok distributed).
+    { unfold distributed, cnt, jok. simpl. unfold jok in Hok1, Hok2. repeat split; try assumption; intros; lia. }
+    assert (Rc : jref (c_lookback cf) central ts =
+                 Some (rcount conv without grouping (pref (c_lookback cf) s ls1 s1 ts ++ pref (c_lookback cf) s ls2 s2 ts))).
+    { unfold central, cnt. simpl. rewrite jref_inst, pref_app by assumption. reflexivity. }
+    assert (Rd : jref (c_lookback cf) distributed ts =
+                 Some (ref_agg (fun v => v) Z.add without grouping
+                               (rcount conv without grouping (pref (c_lookback cf) s ls1 s1 ts) ++
+                                rcount conv without grouping (pref (c_lookback cf) s ls2 s2 ts)))).
+    { unfold distributed, cnt. simpl. rewrite !jref_inst. reflexivity. }
+    destruct (tree_step cf w HN HB Hlb Hw Hstart central _ ts Hokc Hts Rc) as [oc [Ec Pc]].
+    destruct (tree_step cf w HN HB Hlb Hw Hstart distributed _ ts Hokd Hts Rd) as [od [Ed Pd]].
+    exists oc, od. split; [exact Ec|]. split; [exact Ed|].
+    eapply Permutation_trans; [exact Pc|].
+    eapply Permutation_trans; [apply (count_distributes conv conv_add)|].
+    apply Permutation_sym. exact Pd.
+  Qed.
+End DistributedCount.
